@@ -183,10 +183,10 @@ def run_real_peers(pid, tier, v):
         raise vlib.Inconclusive("Gen_GossipPeers produced too few schedules: %s" % [len(x) for x in gens])
     lines = [ln for x in zip(*gens) for ln in x]        # interleave 3 / 2 / 4 initial peers
     if pid == "C08":
-        total = 240 if thorough else 18
+        total = 400 if thorough else 18
         quota = [("settle_timeout", total * 2 // 3), ("settle_normal", total // 4), ("restart", total // 6)]
     else:
-        total = 420 if thorough else 30
+        total = 1000 if thorough else 30
         quota = [("replaced_before_big", total // 3), ("settle_timeout", total // 6), ("restart", total // 8),
                  ("reconnect", total // 10), ("crashed", total // 4)]
     chosen = select(lines, quota, total, seed)
